@@ -27,6 +27,7 @@ import (
 	"fmt"
 	"os"
 	"runtime/trace"
+	"strings"
 )
 
 //verif:stub os.Stat
@@ -591,7 +592,6 @@ func H_C01_nested(n0, n1, order int) {
 	}
 }
 
-
 // ---- typed-map split, struct projection, disabled call, literals, pipeline outputs ----
 
 const vrMixSrc = `
@@ -1088,5 +1088,163 @@ func H_C01_staticNested(variant int) {
 		got := vrEncode(outs)
 		verifAssert(verifAny(verifBytesEq(got, build("null")), verifBytesEq(got, build("[]"))), "C01: the outputs merge into an array of arrays, null / empty where the inner array was empty")
 		verifCover("static nested outputs")
+	}
+}
+
+// ---- C04: the keep-alive relation of forks created at run time ----
+
+const vrKeepSrc = `
+filetype txt;
+
+stage GEN(
+    in  int   n,
+    out int[] xs,
+    src comp  "bin",
+)
+
+stage WORK(
+    in  int x,
+    out txt f,
+    out txt kept,
+    out txt used,
+    out txt scratch,
+    src comp "bin",
+)
+
+stage USE(
+    in  txt[] fs,
+    out int   r,
+    src comp  "bin",
+)
+
+pipeline P(
+    in  int   n,
+    out txt[] results,
+    out int   r,
+)
+{
+    call GEN(
+        n = self.n,
+    )
+
+    map call WORK(
+        x = split GEN.xs,
+    )
+
+    call USE(
+        fs = WORK.used,
+    )
+
+    return (
+        results = WORK.f,
+        r       = USE.r,
+    )
+
+    retain (
+        WORK.kept,
+    )
+}
+
+call P(
+    n = 3,
+)
+`
+
+// vrKeepText: with consumer = false nothing but the top level and the retain
+// declaration refers to WORK's outputs.
+func vrKeepText(consumer bool) string {
+	if consumer {
+		return vrKeepSrc
+	}
+	t := vrKeepSrc
+	cut := func(what string) {
+		k := strings.Index(t, what)
+		if k < 0 {
+			panic("fixture text lacks " + what)
+		}
+		t = t[:k] + t[k+len(what):]
+	}
+	cut("    call USE(\n        fs = WORK.used,\n    )\n\n")
+	cut("        r       = USE.r,\n")
+	cut("    out int   r,\n)\n{\n    call GEN(")
+	k := strings.Index(t, "    out txt[] results,\n")
+	t = t[:k] + "    out txt[] results,\n)\n{\n    call GEN(" + t[k+len("    out txt[] results,\n"):]
+	return t
+}
+
+func vrKeepGraph(consumer bool) *vrReal {
+	disableUniquification = false
+	key := "vrKeepGraph0"
+	if consumer {
+		key = "vrKeepGraph1"
+	}
+	return verifCached(key, func() any {
+		rt := &Runtime{Config: &RuntimeOptions{JobMode: "local", VdrMode: VdrStrict}, mrjob: "/m/mrjob", adaptersPath: "/m/adapters"}
+		_, _, ps, err := rt.instantiatePipeline([]byte(vrKeepText(consumer)), "/m/p.mro", "ps", "/ps", nil, "none", nil, false, true, context.Background())
+		if err != nil {
+			panic("fixture does not instantiate: " + err.Error())
+		}
+		n := func(name string) *Node {
+			return ps.node.top.allNodes["ID.ps.P."+name]
+		}
+		return &vrReal{ps, n("GEN"), n("WORK"), n("USE")}
+	}).(*vrReal)
+}
+
+// H_C04_dynamicForks(n): WORK is mapped over an array only known at run time
+// (n elements), so its forks beyond the first are created by expandForks /
+// cloneFork.  Its output f is a top-level output, kept is retained, used is
+// consumed by USE, scratch by nobody.
+//
+//	C04: every fork — also those created at run time — holds its top-level
+//	     output and its retained output for ever (the holder nil is never
+//	     released), and holds the consumed output for its consumer; nothing
+//	     holds the scratch output.
+func H_C04_dynamicForks(n int, consumerI int) {
+	w := vrKeepGraph(consumerI != 0)
+	vrOuts = map[*Metadata]LazyArgumentMap{}
+	xs := make([]json.RawMessage, n)
+	for i := range xs {
+		xs[i] = vrDigit("xs")
+	}
+	vrOuts[w.gen.forks[0].metadata] = LazyArgumentMap{"xs": vrArray(xs)}
+	w.work.expandForks(true)
+	verifCover("forks expanded")
+	verifAssert(len(w.work.forks) == n, "C03: a map call over a run-time array has one fork per element")
+	use := w.sum // (third node of the fixture: USE)
+	for _, f := range w.work.forks {
+		for _, arg := range []string{"f", "kept"} {
+			// (the top-level pipeline's hold is recorded under a typed nil
+			// (*Node)(nil) key, a retain under the nil interface)
+			holders, ok := f.fileArgs[arg]
+			_, top := holders[nil]
+			_, top2 := holders[Nodable((*Node)(nil))]
+			top = top || top2
+			verifAssert(ok && top, "C04: every fork of a mapped call, also one created at run time, keeps its top-level / retained output held for ever")
+		}
+		if consumerI == 0 {
+			for _, arg := range []string{"used", "scratch"} {
+				_, any := f.fileArgs[arg]
+				verifAssert(!any, "C14: an output nobody uses is not held")
+			}
+			continue
+		}
+		holders := f.fileArgs["used"]
+		held := false
+		for h := range holders {
+			if h != nil && h.getNode() == use {
+				held = true
+			}
+		}
+		verifAssert(held, "C04: every fork of a mapped call keeps the output a later call consumes held for that call")
+		byNode := false
+		for h, args := range f.filePostNodes {
+			if h != nil && h.getNode() == use {
+				_, byNode = args["used"]
+			}
+		}
+		verifAssert(byNode, "C04: the consumer is recorded as a holder of the fork (fileArgs and filePostNodes agree)")
+		_, scratch := f.fileArgs["scratch"]
+		verifAssert(!scratch, "C14: an output nobody uses is not held")
 	}
 }
